@@ -263,6 +263,16 @@ func (s *HiddenFS) Rename(oldname, newname string) error {
 		return &os.PathError{Op: "rename", Path: newname, Err: ErrHiddenPermission}
 	}
 
+	// moving a parent directory of a hidden path would move the hidden
+	// content along with it
+	containsHidden, err := s.isParentOfHidden(oldname)
+	if err != nil {
+		return &os.PathError{Op: "rename", Path: oldname, Err: wrapErrParentOfHiddenCheckFailed(err)}
+	}
+	if containsHidden {
+		return &os.PathError{Op: "rename", Path: oldname, Err: ErrHiddenPermission}
+	}
+
 	err = s.base.Rename(oldname, newname)
 	if err != nil {
 		return err
